@@ -32,8 +32,26 @@ func strConcat(a, b *StrV) *StrV {
 		}
 		return normalizeAlts(out)
 	}
+	if a.Cases != nil || b.Cases != nil {
+		return &StrV{Opaque: true, Tag: "concat-cases"}
+	}
 	pa, ok1 := toFmtParts(a)
 	pb, ok2 := toFmtParts(b)
+	if !ok1 && ok2 && a.Fmt == nil && len(a.Alts) <= 200 {
+		// finite choice followed by a formatted string: one guarded pattern per alternative
+		r := &StrV{}
+		for _, alt := range a.Alts {
+			r.Cases = append(r.Cases, StrCase{alt.Cond, joinParts(append([]FmtPart{{Lit: alt.S}}, pb...))})
+		}
+		return r
+	}
+	if ok1 && !ok2 && b.Fmt == nil && len(b.Alts) <= 200 {
+		r := &StrV{}
+		for _, alt := range b.Alts {
+			r.Cases = append(r.Cases, StrCase{alt.Cond, joinParts(append(append([]FmtPart{}, pa...), FmtPart{Lit: alt.S}))})
+		}
+		return r
+	}
 	if !ok1 || !ok2 {
 		return &StrV{Opaque: true, Tag: "concat-fmt"}
 	}
@@ -144,6 +162,9 @@ func (x *Exec) widthObligations(ps []FmtPart, st *State) {
 
 // strCompare returns an Int term with the sign of strings.Compare(a, b).
 func (x *Exec) strCompare(a, b *StrV, st *State) *Term {
+	if a.Cases != nil || b.Cases != nil {
+		return x.compareByEquality(a, b, st)
+	}
 	if a.Opaque || b.Opaque {
 		unsup("comparison of unmodelled strings (%s, %s)", a.Tag, b.Tag)
 	}
@@ -178,7 +199,7 @@ func (x *Exec) strCompare(a, b *StrV, st *State) *Term {
 		}
 		pa, ok = alignLiteral(l, pb)
 		if !ok {
-			unsup("literal %q does not have the shape of the formatted string", l)
+			return x.compareByEquality(a, b, st)
 		}
 	}
 	if pb == nil {
@@ -188,11 +209,11 @@ func (x *Exec) strCompare(a, b *StrV, st *State) *Term {
 		}
 		pb, ok = alignLiteral(l, pa)
 		if !ok {
-			unsup("literal %q does not have the shape of the formatted string", l)
+			return x.compareByEquality(a, b, st)
 		}
 	}
 	if !sameShape(pa, pb) {
-		unsup("comparison of formatted strings of different shapes")
+		return x.compareByEquality(a, b, st)
 	}
 	x.widthObligations(pa, st)
 	x.widthObligations(pb, st)
@@ -212,6 +233,24 @@ func (x *Exec) strCompare(a, b *StrV, st *State) *Term {
 func (x *Exec) strEqual(a, b *StrV) *Term {
 	if a == b && !a.Opaque {
 		return tTrue
+	}
+	if a.Cases != nil || b.Cases != nil {
+		c, o := a, b
+		if c.Cases == nil {
+			c, o = b, a
+		}
+		if o.Cases != nil || o.Fmt != nil || o.Opaque {
+			unsup("equality of guarded formatted strings")
+		}
+		res := tFalse
+		for _, cs := range c.Cases {
+			for _, alt := range o.Alts {
+				if m, ok := matchPattern(alt.S, cs.Parts); ok {
+					res = mkOr(res, mkAnd(cs.Cond, alt.Cond, m))
+				}
+			}
+		}
+		return res
 	}
 	if a.Opaque || b.Opaque {
 		unsup("equality of unmodelled strings (%s, %s)", a.Tag, b.Tag)
@@ -314,7 +353,7 @@ func matchPattern(lit string, ps []FmtPart) (*Term, bool) {
 }
 
 func (x *Exec) strLen(a *StrV) *Term {
-	if a.Opaque {
+	if a.Opaque || a.Cases != nil {
 		unsup("len of unmodelled string")
 	}
 	if a.Fmt != nil {
@@ -338,7 +377,7 @@ func (x *Exec) strLen(a *StrV) *Term {
 }
 
 func (x *Exec) strSlice(s *StrV, e *ast.SliceExpr, st *State) Value {
-	if s.Opaque {
+	if s.Opaque || s.Cases != nil {
 		unsup("slice of unmodelled string")
 	}
 	lo, hi := -1, -1
@@ -433,30 +472,48 @@ func (x *Exec) stringToRunes(s *StrV) Value {
 		}
 		return sv
 	}
-	if s.Opaque || s.Fmt != nil {
+	if s.Opaque || s.Fmt != nil || s.Cases != nil {
 		unsup("[]rune of unmodelled string")
 	}
-	// all alternatives must have the same rune count
-	n := -1
+	// alternatives may have different rune counts: the slice gets a symbolic length
+	maxN := 0
 	for _, a := range s.Alts {
-		c := utf8.RuneCountInString(a.S)
-		if n >= 0 && c != n {
-			unsup("[]rune of strings with different lengths")
+		if c := utf8.RuneCountInString(a.S); c > maxN {
+			maxN = c
 		}
-		n = c
 	}
 	sv := &SliceV{ElemT: types.Typ[types.Int32]}
-	for i := 0; i < n; i++ {
+	for i := 0; i < maxN; i++ {
 		var t *Term
 		for j := len(s.Alts) - 1; j >= 0; j-- {
-			r := []rune(s.Alts[j].S)[i]
+			rs := []rune(s.Alts[j].S)
+			v := mkInt(0)
+			if i < len(rs) {
+				v = mkInt(int64(rs[i]))
+			}
 			if t == nil {
-				t = mkInt(int64(r))
+				t = v
 			} else {
-				t = mkIte(s.Alts[j].Cond, mkInt(int64(r)), t)
+				t = mkIte(s.Alts[j].Cond, v, t)
 			}
 		}
 		sv.Elems = append(sv.Elems, IntV{t})
+	}
+	var ln *Term
+	same := true
+	for j := len(s.Alts) - 1; j >= 0; j-- {
+		c := mkInt(int64(utf8.RuneCountInString(s.Alts[j].S)))
+		if ln == nil {
+			ln = c
+		} else {
+			if c != ln {
+				same = false
+			}
+			ln = mkIte(s.Alts[j].Cond, c, ln)
+		}
+	}
+	if !same {
+		sv.Len = ln
 	}
 	return sv
 }
@@ -609,7 +666,7 @@ func (x *Exec) stringsFn(name string, call *ast.CallExpr, st *State) Value {
 		v := x.eval(a, st)
 		switch t := v.(type) {
 		case *StrV:
-			if t.Opaque {
+			if t.Opaque || t.Cases != nil {
 				unsup("strings.%s on unmodelled string (%s)", name, t.Tag)
 			}
 			if t.Fmt != nil {
@@ -893,4 +950,14 @@ func isPrefix(a, b []*Term) bool {
 		}
 	}
 	return true
+}
+
+// compareByEquality: strings whose order cannot be modelled but whose equality can: the result is 0 exactly when
+// they are equal and otherwise some unknown non-zero value (sound for the == 0 / != 0 tests the library uses;
+// an order test on it is simply undetermined).
+func (x *Exec) compareByEquality(a, b *StrV, st *State) *Term {
+	eq := x.strEqual(a, b)
+	u := freshVar("cmp", SInt)
+	st.assume(mkNot(mkEq(u, mkInt(0))))
+	return mkIte(eq, mkInt(0), u)
 }
